@@ -60,7 +60,7 @@ class C05(Check):
             for n in ((12,) if tier == 'quick' else (8, 9, 12, 24)):
                 for ds in ((34.0, 7.25) if tier == 'quick' else (34.0, 7.25, 125.5, 1.0, 300.0)):
                     js.append(dict(kind='spatial_long', n=n, shape=shape, step=ds))
-                for st in ((3350, 333, 1000.0 / 3, 162.5) if tier == 'quick' else (3350, 333, 1000, 162, 9050, 1, 1000.0 / 3, 162.5, 1000.0 / 7, 0.75)):      # milliseconds, whole and fractional
+                for st in ((3350, 333, 1000.0 / 3, 162.5) if tier == 'quick' else (3350, 333, 1000, 162, 9050, 40, 1000.0 / 3, 162.5, 1000.0 / 7, 62.5)):      # milliseconds, whole and fractional
                     js.append(dict(kind='temporal_long', n=n, shape=shape, step=st))
         return js
 
